@@ -57,6 +57,7 @@ type repoNames struct {
 	Dir     string
 	Tables  map[string]int
 	Foreign map[string]int // full file name of a harness-made .rlock -> suffix (>0)
+	Ignore  map[string]bool // files the harness itself put into the directory (e.g. ./csvqrc)
 }
 
 var rlockRe = regexp.MustCompile(`^\.(.+)\.([0-9A-Za-z]{12})\.rlock$`)
@@ -179,6 +180,9 @@ func snapshotDir(n *repoNames) fsSnap {
 		panic(err)
 	}
 	for _, e := range ents {
+		if n.Ignore[e.Name()] {
+			continue
+		}
 		p, ok := n.classify(e.Name())
 		if !ok || e.IsDir() {
 			s.Unknown = append(s.Unknown, e.Name())
